@@ -85,6 +85,7 @@ pub struct LoopSim {
     victim_repaired: bool,
     timeout_ms: u64,
     idle_left: u32,
+    next_amnesia: u64,
     classic_since: Option<u64>,
     last_ack_rx: u64,
     last_ka: Vec<u64>,
@@ -124,7 +125,7 @@ impl LoopSim {
             path: vec![], rtt: vec![], group: None, registered: vec![], pending: VecDeque::new(), ack_buf: vec![],
             rx_seqs: Default::default(), rx_count: 0, last_reply_at: vec![], cur_addr: vec![],
             next_seq: 5000, pkt_ctr: 0, client_idx: 0, steps_done: 0, steps_total: 3000, victim_down_at: None,
-            victim_repaired: false, timeout_ms: 5000, idle_left: 0, classic_since: None, last_ack_rx: 0, last_ka: vec![],
+            victim_repaired: false, timeout_ms: 5000, idle_left: 0, next_amnesia: 0, classic_since: None, last_ack_rx: 0, last_ka: vec![],
             c: Default::default(),
         }
     }
@@ -223,6 +224,8 @@ impl LoopSim {
             "ka" => {
                 if self.registered[link] == Some(src) {
                     replies.push(b.to_vec());
+                } else if self.group.is_none() {
+                    replies.push(SRTLA_TYPE_REG_NGP.to_be_bytes().to_vec());
                 }
             }
             "data" if self.registered[link] == Some(src) => {
@@ -378,6 +381,7 @@ impl Engine for LoopSim {
         self.victim_down_at = None;
         self.victim_repaired = false;
         self.idle_left = 0;
+        self.next_amnesia = T0 + 8_000;
         self.last_ack_rx = 0;
         self.last_ka = vec![0; self.n];
         self.config = srtla_send::DynamicConfig::new();
@@ -472,6 +476,17 @@ impl Engine for LoopSim {
                 line["d"] = json!(0);
                 self.bump("path_changes");
             }
+            "Amnesia" => {
+                // the receiver restarts: it knows no group and no link any more
+                self.group = None;
+                self.registered = vec![None; self.n];
+                self.pending.clear();
+                for b in self.ack_buf.iter_mut() {
+                    b.clear();
+                }
+                line["d"] = json!(0);
+                self.bump("receiver_restarts");
+            }
             "SetCfg" => {
                 if let Some(m) = ev.get("classic").and_then(Value::as_bool) {
                     self.config.set_mode(if m { SchedulingMode::Classic } else { SchedulingMode::Enhanced });
@@ -517,6 +532,22 @@ impl Engine for LoopSim {
                     self.victim_repaired = true;
                     return Some(json!({"ev": "SetPath", "l": victim + 1, "p": "up"}));
                 }
+            }
+        }
+        if self.profile == "amnesia" {
+            let up = self.registered.iter().filter(|r| r.is_some()).count() == self.n;
+            if up && now >= self.next_amnesia {
+                self.next_amnesia = now + 20_000 + rng.random_range(0..15_000);
+                return Some(json!({"ev": "Amnesia"}));
+            }
+            // mostly time: a restart takes the configured timeout plus a handshake to heal
+            if rng.random_range(0..3) != 0 {
+                let d = rng.random_range(20..400);
+                let d = match self.pending.iter().map(|r| r.at).min() {
+                    Some(at) if at > now => d.min(at - now),
+                    _ => d,
+                };
+                return Some(json!({"ev": "Advance", "d": d.max(1)}));
             }
         }
         if self.idle_left > 0 {
